@@ -182,6 +182,7 @@ def run(cx):
     # ---------------- R10j
     cx.guard(_r10j, cx, repo)
     cx.guard(_r10j_purity, cx, repo)
+    cx.guard(cache_fill_purity, cx, "R10j", repo)
     # ---------------- R10k
     from rules.c08 import make_ownership
     cx.guard(make_ownership, cx, repo, "R10k")
@@ -810,3 +811,67 @@ def _r10l(cx, repo):
                               f"(`{norm(shared[0])[:70]}`); the class fills them in place (`{norm(enclosing_stmt(deep_writes[0]))[:60]}`), so all keys share one set of inner containers "
                               "and a rendering under one palette is served under another")
     cx.at_least("R10l", "keyed cache stores examined", n_sites, 2)
+
+
+def cache_fill_purity(cx, rule, repo):
+    """PPEnumFieldType fills its per-palette cache with lists of chunks.  A list that is stored in the cache (or returned to
+    be stored) must not be changed afterwards - not directly and not through another local name that may denote the same
+    object (`full = val_items; full += [...]` extends the cached 'val' text).  May-alias by plain `a = b` assignments; a
+    mutation counts when an aliasing assignment can reach it on the CFG without the name being re-bound in between."""
+    from sa.cfg import CFG
+    enum = cx.cls("ak/ppobj.py", "PPEnumFieldType", rule)
+    n_funcs = 0
+    for f in [x for x in enum.body if isinstance(x, FUNC)]:
+        stored = {}
+        for st in walk_local(f):
+            if isinstance(st, ast.Assign):
+                for t in st.targets:
+                    if isinstance(t, ast.Subscript) and "cache" in norm(t).lower():
+                        for x in ast.walk(st.value):
+                            if isinstance(x, ast.Name) and isinstance(x.ctx, ast.Load):
+                                stored.setdefault(x.id, st)
+        if not stored:
+            continue
+        n_funcs += 1
+        g = CFG(f)
+        MUT = ("append", "extend", "insert", "pop", "remove", "clear", "sort", "reverse")
+        muts = []
+        for st in walk_local(f):
+            if isinstance(st, ast.AugAssign) and isinstance(st.target, ast.Name) and isinstance(st.op, (ast.Add, ast.Mult, ast.BitOr)):
+                muts.append((st.target.id, st))
+            elif isinstance(st, ast.Expr) and isinstance(st.value, ast.Call) and isinstance(st.value.func, ast.Attribute) and st.value.func.attr in MUT \
+                    and isinstance(st.value.func.value, ast.Name):
+                muts.append((st.value.func.value.id, st))
+        binds = {}
+        for st in walk_local(f):
+            if isinstance(st, (ast.Assign, ast.AugAssign, ast.AnnAssign, ast.For)):
+                tg = st.targets if isinstance(st, ast.Assign) else [st.target]
+                for t in tg:
+                    for x in ast.walk(t):
+                        if isinstance(x, ast.Name) and isinstance(x.ctx, ast.Store):
+                            binds.setdefault(x.id, []).append(st)
+        for name, m in muts:
+            mn = g.node_of(m)
+            if mn is None:
+                continue
+            # (a) the name itself is stored in the cache before / after: mutating it after the store changes the cached text
+            culprit = None
+            if name in stored:
+                sn = g.node_of(stored[name])
+                others = {g.node_of(b).id for b in binds.get(name, []) if b is not m and g.node_of(b) is not None and isinstance(b, ast.Assign)}
+                if sn is not None and g.reach_avoiding(sn, {mn.id}, others, follow_raise=False) is not None:
+                    culprit = (name, stored[name])
+            # (b) an alias `name = other` with `other` stored in the cache
+            if culprit is None:
+                for b in binds.get(name, []):
+                    if isinstance(b, ast.Assign) and isinstance(b.value, ast.Name) and b.value.id in stored and b.value.id != name:
+                        bn = g.node_of(b)
+                        others = {g.node_of(b2).id for b2 in binds.get(name, []) if b2 is not b and b2 is not m and g.node_of(b2) is not None and isinstance(b2, ast.Assign)}
+                        if bn is not None and g.reach_avoiding(bn, {mn.id}, others, follow_raise=False) is not None:
+                            culprit = (b.value.id, stored[b.value.id])
+            ok = culprit is None
+            cx.ob(rule, m, ok, f"`{name}` is not (an alias of) a list kept in the cache when it is changed in place" if ok else
+                  f"`{norm(m)[:50]}` changes in place a list that is kept in the cache (`{culprit[0]}`, stored by `{norm(culprit[1])[:60]}`"
+                  f"{'' if culprit[0] == name else ', reached through the alias `' + name + '`'}): the cached text of another format of the same value now shows these chunks too",
+                  stmt=f"{f.name}: {norm(m)[:60]}")
+    cx.counts[f"{rule}:cache-filling functions examined"] = n_funcs
